@@ -236,6 +236,25 @@ Section Machine.
         | Some (h', it', r) => Some (h', it', [], r)
         end
     end.
+
+  (* any consumer: an arbitrary sequence of __next__ / close() (= dropping the last reference) /
+     throw() calls on one generator object, each under the heap the previous one left; a closed
+     generator is finished *)
+  Inductive fop := FNext | FClose | FThrow.
+  Fixpoint fdrive (n d:nat) (h:heap) (it:iter) (ops:list fop) : option (heap * iter * list res) :=
+    match ops with
+    | [] => Some (h, it, [])
+    | FNext :: r =>
+        match inext n d h it with
+        | None => None
+        | Some (h', it', rr) =>
+            match fdrive n d h' it' r with None => None | Some (hf, itf, rs) => Some (hf, itf, rr :: rs) end
+        end
+    | FClose :: r =>
+        match fdrive n d (iclose h it) IDone r with None => None | Some (hf, itf, rs) => Some (hf, itf, RStop :: rs) end
+    | FThrow :: r =>
+        match fdrive n d (iclose h it) IDone r with None => None | Some (hf, itf, rs) => Some (hf, itf, RRaise :: rs) end
+    end.
 End Machine.
 
 Arguments ELeaf {X P} x.
@@ -267,6 +286,7 @@ Arguments cont {L X E P} mkleaf lnext lclose prog gho n d h k e.
 Arguments loop {L X E P} mkleaf lnext lclose prog gho n d h it body k e.
 Arguments inext {L X E P} mkleaf lnext lclose prog gho n d h it.
 Arguments nexts {L X E P} mkleaf lnext lclose prog gho n d k h it.
+Arguments fdrive {L X E P} mkleaf lnext lclose prog gho n d h it ops.
 Arguments exec_S {L X E P} mkleaf lnext lclose prog gho n d h c k e.
 Arguments cont_S {L X E P} mkleaf lnext lclose prog gho n d h k e.
 Arguments loop_S {L X E P} mkleaf lnext lclose prog gho n d h it body k e.
